@@ -29,6 +29,19 @@ def gen_history(rng, mode, cursor_ops):
     ops = []
     for i in range(n):
         r = rng.random()
+        sent = [o for o in ops if o[0] in ("upd", "fill")]
+        if sent and rng.random() < 0.15:
+            # the server repaints what it has painted before, byte for byte (a window went away), or the same
+            # bytes somewhere else / other bytes in the same place
+            o = rng.choice(sent)
+            k = rng.random()
+            if k < 0.6:
+                ops.append(o)
+            elif k < 0.8:
+                ops.append((o[0], o[1] + 1, o[2], *o[3:]))
+            else:
+                ops.append((*o[:5], bytes(b ^ 0x40 for b in o[5])))
+            continue
         if r < 0.7 or i == 0 and r < 0.9:
             w, h = rng.choice([0, 1, 2, 3, 5, 9, 16]), rng.choice([0, 1, 2, 4, 7, 12])
             x, y = rng.choice([0, 0, 1, 2, 6, 15, 30]), rng.choice([0, 0, 1, 3, 8, 20])
